@@ -14,9 +14,11 @@ CONSTANTS
   WithFail = TRUE
   WithInflight = TRUE
   WithSwap = TRUE
+  WithOvertake = TRUE
   WithRestart = TRUE
   AlterDbChecked = TRUE
   AlterIdxRecheck = TRUE
   DropGuarded = TRUE
   CreateFromDrop = TRUE
+  ProbeAfterDrop = TRUE
   TabT = {0}
